@@ -75,6 +75,15 @@ Definition order_add_ok (old new : list req) (f t : Z) : bool :=
 
 Definition chk (c : Z) (b : bool) : list Z := if b then [] else [c].
 
+(* C08 quantifies over messages the trackers themselves send: the key is the decimal form of an
+   int32 partition.  For any other key (not a number, out of range) clause 8 does not say which
+   partition is addressed (the model still follows the code: tag 22, compared observables). *)
+Definition key_in_domain (key : list Z) : bool :=
+  match parse_int key with
+  | Some v => (- 2 ^ 31 <=? v) && (v <? 2 ^ 31)
+  | None => false
+  end.
+
 (* the call broadcast exactly one message: the complete list now held for p *)
 Definition sent_is (sent : list bcast) (p : Z) (cur : tstate) : bool :=
   match sent, lookup p cur with
@@ -100,8 +109,9 @@ Definition refused (c : Z) (prev : tstate) (so : sobs) : list Z :=
    5 frame: the other partitions are untouched; a refused operation changes nothing
    6 the request offered for work (GetRecoveryRequest) is the first = oldest of the list
    7 every change is broadcast as the complete list of that partition; nothing else is sent
-   8 incoming messages: a snapshot replaces the addressed partition's list (key through Atoi,
-     int32), an undecodable payload is ignored, an unknown type is an error; ack only for cancel-all
+   8 incoming messages: a snapshot replaces the addressed partition's list (key = decimal int32;
+     other keys: no claim), an undecodable payload is ignored, an unknown type is an error;
+     ack only for cancel-all
    9 replicas: an instance fed all messages, or only the last per key, holds for every key
      exactly the last broadcast list; and so does the origin for every key not overwritten since
    10 the observation has as many steps as the history; 11 the code panicked *)
@@ -147,7 +157,8 @@ Definition step_spec (parts : list Z) (prev : tstate) (o : xop) (so : sobs) : li
         match pl with
         | Some rs =>
             chk 8 (negb (so_err so) && negb (so_ack so)
-                   && oreqs_eqb (lookup (atoi_key key) cur) (Some rs) && frame (atoi_key key) prev cur)
+                   && (negb (key_in_domain key)
+                       || oreqs_eqb (lookup (atoi_key key) cur) (Some rs) && frame (atoi_key key) prev cur))
         | None => chk 8 (negb (so_err so) && negb (so_ack so) && equiv prev cur)
         end ++ chk 7 (no_sent (so_sent so))
       else chk 8 (so_err so && negb (so_ack so) && equiv prev cur) ++ chk 7 (no_sent (so_sent so))
